@@ -21,6 +21,8 @@ TrapCloseNoConn == ~(cur = 0 /\ pc[X] = "cx.close")
 TrapCloseDuringDial == ~(pc[X] = "cx.close" /\ \E k \in Callers : pc[K(k)] = "rt.dial")
 \* C11: a call after Close completed
 TrapCallAfterClose == ~(pc[X] = "done" /\ \E k \in Callers : pc[K(k)] = "rt.lock")
+\* C11: the read loop has gone (response channel closed) while the connection's context is not cancelled yet, and a caller has just entered the select of recv
+TrapRxClosedBeforeCancel == ~(\E k \in Callers : \E g \in Gens : tg[K(k)] = g /\ pc[K(k)] = "recv.select!" /\ rxClosed[g] /\ ~ctx[g])
 \* C11: a request is about to be transmitted for the fourth time
 TrapFourthTry == ~(\E k \in Callers : tries[k] = 3 /\ pc[K(k)] = "send.select")
 \* C11: the server closes right after replying (response and EOF both pending)
